@@ -75,7 +75,7 @@ func cmdCheck(args []string) int {
 	for _, p := range w.Problems {
 		fmt.Println("CONTRACT-PROBLEM:", p)
 	}
-	timeout := 20
+	timeout := 30
 	w.UnitBudget = 60
 	if *tier == "thorough" {
 		timeout = 120
@@ -186,7 +186,7 @@ func (r *Run) execute() int {
 	}
 	dis := &Discharger{w: w, dir: dir, timeout: r.timeout, sem: make(chan struct{}, 24), survey: r.survey}
 	if !r.survey {
-		budget := 8 * time.Minute
+		budget := 15 * time.Minute
 		if r.tier == "thorough" {
 			budget = 60 * time.Minute
 		}
